@@ -30,7 +30,7 @@ package net
 //@   ensures err == nil ==> 10 <= L && L <= 4096 && Spos(st) == p0 + 4 + L           [@consume]
 //@   ensures err == nil ==> uint32(RequestID) == le32(Sinrow(st), p0+4) && uint32(Type) == le32(Sinrow(st), p0+8)   [@value]
 //@   ensures err == nil ==> len(Payload) == L - 10 && all(j, 0, L - 10, Payload[j] == Sin(st, p0+12+j))            [@value]
-//@   ensures !Sfail(st) && (L < 10 || L > 4096) ==> err != nil                      [@value]
+//@   ensures !Sfail(st) && (L < 10 || L > 4096) ==> err != nil                      [@value @reject]
 //@   ensures Sfail(st) ==> err != nil                                                [@errprop]
 //@   ensures !Sfail(st) && 10 <= L && L <= 4096 ==> err == nil                      [@errprop]
 //@   ensures Spos(st) >= p0 && (err != nil && !Sfail(st) ==> Spos(st) == p0 + 4)    [@consume]
